@@ -4,7 +4,7 @@ from .. import core, mt_check
 
 def run(tier, seed, verdict):
     quick = tier == "quick"
-    it = 4000 if quick else 400000
+    it = 4000 if quick else 40000
     res = mt_check.MtResult()
     for variant in ("asan20d", "tsan20d"):
         n = it if variant.startswith("asan") else it // 4
